@@ -80,7 +80,8 @@ Section Safety.
     - apply bind_NP; [apply NP_get|intros]. apply bind_NP; [npmod|intros]. apply bind_NP; [unfold new_writer; npmod|intros].
       apply NP_catch_then; [apply NP_run_hops|intros r0 Hr0]. apply bind_NP; [apply NP_get|intros s1].
       apply bind_NP; [destruct (newp s1); [npmod|apply NP_ret]|intros]. apply bind_NP; [destruct (is_dirty (wst s1)); [apply NP_wr|apply NP_ret]|intros].
-      apply bind_NP; [apply NP_fl|intros; apply NP_reraise, Hr0]. Qed.
+      apply bind_NP; [apply NP_fl|intros]. apply bind_NP; [apply NP_reraise, Hr0|intros].
+      destruct (cs_fail cs _ name args); [apply NP_process_error|apply NP_ret]. Qed.
   Lemma NP_process_help req : Spec (process_help okf cs req) NPp.
   Proof. unfold process_help. apply bind_NP; [unfold new_writer; npmod|intros]. apply bind_NP; [apply NP_run_hops|intros].
     apply bind_NP; [apply NP_get|intros s1]. apply bind_NP; [destruct (is_dirty (wst s1)); [apply NP_wr|apply NP_ret]|intros; apply NP_fl]. Qed.
